@@ -2,6 +2,7 @@ SPECIFICATION Spec
 CONSTANTS
   KeyOrder <- KO2
   Ctxs <- CtxQ2
+  Flows <- SingleFlows
   Calls <- CallsQuick
 INVARIANT ContainsAgreesWithGet
 INVARIANT GetAfterStrToDict
